@@ -55,6 +55,10 @@ type NResp struct {
 	Sig  []byte
 	Meta sigMeta
 	Tag  string
+	// for a verifier's own response: commitments and threshold of the deal it answers
+	AboutCommits []kyber.Point
+	AboutT       uint32
+	About        bool
 }
 
 type NJust struct {
@@ -66,14 +70,14 @@ type NJust struct {
 }
 
 type encMeta struct {
-	Signer   kyber.Point // nil: no valid signature on the DH key
-	Rcpt     kyber.Point
-	CDealer  kyber.Point
-	CVs      []kyber.Point
-	Intact   bool
-	Deal     *NDeal
-	Class    string
-	ViaDeal  bool // produced by the real Dealer.EncryptedDeal
+	Signer  kyber.Point // nil: no valid signature on the DH key
+	Rcpt    kyber.Point
+	CDealer kyber.Point
+	CVs     []kyber.Point
+	Intact  bool
+	Deal    *NDeal
+	Class   string
+	ViaDeal bool // produced by the real Dealer.EncryptedDeal
 }
 
 type NEnc struct {
